@@ -657,6 +657,11 @@ class ITerm2Image(GraphicsImage, metaclass=ITerm2ImageMeta):
                     )
                 )
 
+        if render_method == ANIM:
+            # Not a native animation (a non-animated image or a single frame of an
+            # animation): the WHOLE render method is used instead, as documented.
+            render_method = WHOLE
+
         width, height = (
             self._get_minimal_render_size()
             if render_method == WHOLE
